@@ -142,7 +142,7 @@ func genC11(t *rapid.T) C11Case {
 		hHeight = int(h.Height)
 	}
 	// children of the honest tip that only liars know
-	c.BadChild = appendRun(&tc, hIdx, []kit.BlockSpec{{Dt: 1, Txs: intents("bctx"), Corrupt: &kit.Corruption{Kind: rapid.SampledFrom([]string{"payout", "commitment", "overspend", "txsig", "dup-txn"}).Draw(t, "bckind"), Arg: rapid.IntRange(0, 7).Draw(t, "bcarg")}}})
+	c.BadChild = appendRun(&tc, hIdx, []kit.BlockSpec{{Dt: 1, Txs: intents("bctx"), Corrupt: &kit.Corruption{Kind: rapid.SampledFrom([]string{"overspend", "txsig", "dup-txn"}).Draw(t, "bckind"), Arg: rapid.IntRange(0, 7).Draw(t, "bcarg")}}})
 	c.GoodChild = appendRun(&tc, hIdx, []kit.BlockSpec{{Dt: 2, Miner: 1, Txs: []kit.Intent{{Kind: "pay", Who: rapid.IntRange(0, 3).Draw(t, "gcwho"), To: 1, Pick: rapid.IntRange(0, 5).Draw(t, "gcpick"), Amt: 3, V2: true}, {Kind: "pay", Who: rapid.IntRange(0, 3).Draw(t, "gcwho2"), To: 2, Pick: 1, Amt: 5, Fee: true, V2: true}}}})
 	nb := rapid.IntRange(1, 2).Draw(t, "nbyz")
 	for i := 0; i < nb; i++ {
@@ -476,6 +476,13 @@ func runC11(c C11Case, cs *kit.CaseStats) error {
 			if cur != H || bad == nil || bad.Valid() || bad.Block.V2 == nil || bad.Parent != H {
 				return
 			}
+			// an outline carries neither the payout value nor the commitment: the
+			// receiver recomputes both, so only a lie inside the transactions
+			// survives the trip (a v2 block with a wrong payout shares its id with
+			// the valid block the receiver reconstructs)
+			if bad.Corrupt != "overspend" && bad.Corrupt != "txsig" && bad.Corrupt != "dup-txn" {
+				return
+			}
 			err = p2px.RelayOutline(conn, gateway.OutlineBlock(bad.Block, nil, nil))
 			relayAtH[i] = true
 		case "relay-outline/wrong-missing", "relay-outline/no-missing", "relay-outline/txn-altered":
@@ -723,11 +730,13 @@ func runC11(c C11Case, cs *kit.CaseStats) error {
 					}
 					if banned {
 						cs.Class("invalid-block-delivered:banned")
-					} else if quiescent && headerSafe && (rpc == "none" || strings.HasPrefix(rpc, "relay")) && bt.Hdr.SufficientlyHeavierThan(H.Ledger.State) {
-						// no lie on the sync RPCs, the header chain is valid and heavier
-						// than anything the victim can hold: the victim fetched this
-						// chain from this peer, so the invalid block was validated
-						return fmt.Errorf("Byzantine peer %d (%s) delivered block %v, which core rejects (%v), on a branch sufficiently heavier than the honest chain, but the peer store never saw a Ban of its address (bans: %v)", i, b.IP, a.Index(), a.Err, victim.Store.Bans())
+					} else if quiescent && headerSafe && (rpc == "none" || strings.HasPrefix(rpc, "relay")) && T != nil && T.Ledger != nil && bt.Hdr.SufficientlyHeavierThan(T.Ledger.State) {
+						// no lie on the sync RPCs, the header chain is valid and
+						// sufficiently heavier than the tip the victim ended on (hence,
+						// tip work being monotone, than any tip it ever had): the victim
+						// fetched this chain from this peer and tried to reorganise to
+						// it, so the invalid block was validated
+						return fmt.Errorf("Byzantine peer %d (%s) delivered block %v, which core rejects (%v), on a branch sufficiently heavier than the victim's final tip %v, but the peer store never saw a Ban of its address (bans: %v)", i, b.IP, a.Index(), a.Err, T.Index(), victim.Store.Bans())
 					} else {
 						cs.Class("invalid-block-delivered:NOT-banned:" + a.Corrupt + "/" + key)
 						if os.Getenv("VERIF_NET_DEBUG") != "" {
